@@ -590,8 +590,8 @@ class InverseLaplaceTransformer(UnilateralInverseTransformer):
                 cresult, uresult = Zero, self.sympy(expr, s, t)
 
         if delay != 0:
-            cresult = cresult.subs(t, t - delay)
-            uresult = uresult.subs(t, t - delay)
+            cresult = sym.sympify(cresult).subs(t, t - delay)
+            uresult = sym.sympify(uresult).subs(t, t - delay)
 
             # h(t) = g(t - T)
             # If h(t) is known to be causal and T >= 0, then g(t)
